@@ -1,5 +1,65 @@
-(* C01 - statements are being added as Proofs/ExecFacts.v grows *)
-From Coq Require Import List.
-From JugV Require Import Model.Deps Model.Exec Model.ExecCase.
-Theorem C01_placeholder : True. Proof. exact I. Qed.
-Print Assumptions C01_placeholder.
+(* C01 - distributed execution computes what plain sequential Python would compute.
+   Statements only; every proof is [exact <lemma>].  Vocabulary: see Props/C02.v; further
+   [seq_eval C order r0] = call the task functions one after the other in the order the jugfile
+   defines them, no workers, no locks; [topo C [] order] = every task comes after its dependencies;
+   [Sound C r0] = every result present at the start is the function applied to the stored dependencies;
+   [doomed C r t] = t raises or depends, however indirectly, on a task that raises;
+   [okev C e] = e is neither a stop request nor a crash (a raise only under --keep-going);
+   [quiescent all_workers s] = every worker has left (or never did anything); [ranked]/[closed] =
+   the dependency relation is acyclic and stays inside the task set. *)
+From Coq Require Import List Bool PArith.
+From JugV Require Import Model.MapReduce Model.Slice Model.Deps Model.Exec Model.ExecCase Model.ExecExample
+  Proofs.ExecFacts Proofs.ExecProgFacts Proofs.ExecTheorems.
+Import ListNotations.
+
+(* (a) every value any worker ever stores IS the value of sequential evaluation - for every number
+   of workers and every interleaving, also mid-way, also with failures, stop requests and crashes *)
+Theorem C01_values_are_sequential : forall (V : Type) (C : cfg V), framed C ->
+  forall rank, ranked C rank ->
+  forall r0 tr s order, reach C r0 tr s -> topo C [] order ->
+  forall t v, In t order -> results s t = Some v -> seq_eval C order r0 t = Some v.
+Proof. exact (@values_are_sequential). Qed.
+Print Assumptions C01_values_are_sequential.
+
+(* (b) when execute has finished - every worker has left - without stop request or crash, exactly
+   the tasks that neither raise nor depend on one that raises have a result: in a run without
+   failures that is every task *)
+Theorem C01_complete_when_finished : forall (V : Type) (C : cfg V), framed C ->
+  forall rank, ranked C rank -> closed C ->
+  forall r0 tr s, reach C r0 tr s -> forallb (okev C) tr = true ->
+  quiescent all_workers s -> (exists w c, w_pc (ws s w) = PDone c) ->
+  forall t, In t (c_tasks C) -> (results s t <> None <-> ~ doomed C (results s) t).
+Proof. exact (@complete_at_quiescence). Qed.
+Print Assumptions C01_complete_when_finished.
+
+(* (c) running execute again executes nothing and changes no value: for a stored task the start
+   event is not enabled, its call counter and its value stay what they are, whatever any workers do *)
+Theorem C01_second_execute_does_nothing : forall (V : Type) (C : cfg V), framed C ->
+  forall r0 tr s tr' s' t, reach C r0 tr s -> results s t <> None -> run C s tr' = Some s' ->
+    (forall w, step C s (EStart w t) = None) /\ execs s' t = execs s t /\ results s' t = results s t.
+Proof. exact (@not_started_once_stored). Qed.
+Print Assumptions C01_second_execute_does_nothing.
+
+(* (d) the hypotheses hold for every generated program whose tasks refer to earlier tasks only; the
+   store backends and aggressive unloading are not parameters of the protocol at all: they are
+   covered by the traces, which are recorded on every backend in both unloading modes *)
+Theorem C01_programs_qualify : forall p, wf_prog p = true ->
+  framed (prog_cfg p) /\ ranked (prog_cfg p) (prog_rank p) /\ closed (prog_cfg p).
+Proof. exact (fun p H => conj (programs_are_framed p) (conj (programs_are_ranked p H) (programs_are_closed p H))). Qed.
+Print Assumptions C01_programs_qualify.
+
+(* non-vacuity: the two-worker run of Model/ExecExample.v is a run of the protocol without failures,
+   both workers have left, every task is stored with the value sequential evaluation gives *)
+Example C01_nonvacuous :
+  wf_prog ex_prog = true /\ topo (prog_cfg ex_prog) [] [1; 2; 3]%positive /\
+  exists s, run (prog_cfg ex_prog) (init (st_of [])) ex_trace = Some s /\
+            forallb (okev (prog_cfg ex_prog)) ex_trace = true /\
+            w_pc (ws s 0) = PDone 0 /\ w_pc (ws s 1) = PDone 0 /\
+            map (results s) [1; 2; 3]%positive = [Some ex_v1; Some ex_v2; Some ex_v3] /\
+            map (prog_seq ex_prog []) [1; 2; 3]%positive = [Some ex_v1; Some ex_v2; Some ex_v3].
+Proof.
+  split; [reflexivity|]. split.
+  - simpl. repeat split; intros x Hx; vm_compute in Hx;
+      repeat (destruct Hx as [Hx | Hx]; [subst; simpl; auto 6|]); try contradiction.
+  - eexists. vm_compute. repeat split; reflexivity.
+Qed.
